@@ -132,3 +132,61 @@ def is_self_attr(node, attr=None):
 
 def const_str(node):
     return node.value if isinstance(node, ast.Constant) and isinstance(node.value, str) else None
+
+
+def pmatch(text, pattern, full=True):
+    """Match normalised source text against a pattern in which $name stands for an identifier (bound consistently).
+    Returns the binding dict or None.  `text` may be an ast node."""
+    import re
+    if not isinstance(text, str):
+        text = norm(text)
+    out, seen, i = [], [], 0
+    for m in re.finditer(r'\$(\w+)', pattern):
+        out.append(re.escape(pattern[i:m.start()]))
+        name = m.group(1)
+        if name in seen:
+            out.append('(?P=%s)' % name)
+        else:
+            seen.append(name)
+            out.append(r'(?P<%s>[A-Za-z_]\w*)' % name)
+        i = m.end()
+    out.append(re.escape(pattern[i:]))
+    rx = ''.join(out)
+    m = re.fullmatch(rx, text) if full else re.search(rx, text)
+    return m.groupdict() if m else None
+
+
+def pfind(texts, pattern, full=True):
+    """first binding of pattern among an iterable of nodes/texts"""
+    for t in texts:
+        b = pmatch(t, pattern, full)
+        if b is not None:
+            return b
+    return None
+
+
+def canon_text(node):
+    """normalised source text with local identifiers replaced by positional placeholders (v0, v1, ...) in order of
+    first occurrence: equal for code that differs only in the names of its variables"""
+    import copy
+    names = {}
+
+    class R(ast.NodeTransformer):
+        def visit_Name(self, n):
+            if n.id in ('self', 'True', 'False', 'None') or n.id[:1].isupper():
+                return n
+            if n.id not in names:
+                names[n.id] = 'v%d' % len(names)
+            return ast.copy_location(ast.Name(id=names[n.id], ctx=n.ctx), n)
+
+        def visit_Attribute(self, n):
+            # keep module/attribute chains such as os.path.join, jinja2.Environment intact
+            if dotted_name(n) and not dotted_name(n).startswith('self.') and isinstance(n.value, (ast.Name, ast.Attribute)) \
+                    and dotted_name(n).split('.')[0] in ('os', 'sys', 'jinja2', 'error', 'debug', 'jfilters', 're', 'json'):
+                return n
+            self.generic_visit(n)
+            return n
+
+        def visit_arg(self, n):
+            return n
+    return norm(R().visit(copy.deepcopy(node)))
